@@ -34,7 +34,7 @@ CHECKS["C06"] = dict(
    note="Trusted: CBMC, lowering, CBMC's realloc model with allocation failure excluded (the code asserts non-null). Stated preconditions: Reserve(n>=1); Grow(0) only with capacity >= 1 (otherwise realloc(p,0)). Pointer checks are off inside Grow and Size only (capacity test past the end of the block; Size() right after realloc); emitter extents for strings/integers are C09/C08.",
    technique="CBMC function contracts enforced by DFCC on mechanically sliced member functions (loop-free: complete)")
 CHECKS["C09"] = dict(
-   text="Complete proofs for the escape tables (all 256 bytes: need-escape flag, escape length 0/2/6, escape text per RFC 8259) and for CopyAndGetEscapMask (all VEC_LEN-byte blocks, both vector widths: verbatim copy, mask bit i iff byte i needs an escape, lowest set bit marks a byte needing an escape); unbounded loop-contract proof for DoEscape (any run length: reads only [src,src+nb), writes only [dst,dst+6nb+2), consumes k>=1 bytes, emits 2k..6k bytes, stops at the first byte needing no escape); bounded byte-exactness of DoEscape for runs <= 4; Quote's tail source selection (page-offset guard or stack copy) proved for all tails, offsets and both preprocessor paths as a verbatim fragment. The serializer call site (reservation 6n+32+3 before Quote) is checked in job C06.SerializeImpl.reservations. Quote's own loops (tail mask, read/write extents, total extent 6n+2, byte-exact output) are NOT decided: four routes were built and none finished (DESIGN section 12).",
+   text="Complete proofs for the escape tables (all 256 bytes: need-escape flag, escape length 0/2/6, escape text per RFC 8259) and for CopyAndGetEscapMask (all VEC_LEN-byte blocks, both vector widths: verbatim copy, mask bit i iff byte i needs an escape, lowest set bit marks a byte needing an escape); unbounded loop-contract proof for DoEscape (any run length: reads only [src,src+nb), writes only [dst,dst+6nb+2), consumes k>=1 bytes, emits 2k..6k bytes, stops at the first byte needing no escape); bounded byte-exactness of DoEscape for runs <= 4; Quote's tail source selection (page-offset guard or stack copy) and its tail mask proved for all tails, offsets and both preprocessor paths as verbatim fragments. The serializer call site (reservation 6n+32+3 before Quote) is checked in job C06.SerializeImpl.reservations. Quote's own loops (read/write extents, total extent 6n+2, byte-exact output) are NOT decided: four routes were built and none finished (DESIGN section 12).",
    design_ref="DESIGN.md section 5 (C09)",
    note="Trusted: CBMC, lowering, intrinsic/SIMD-wrapper models (sample-validated each run). Undecided: Quote's loops.",
    technique="CBMC assertions over full finite domains (tables, one vector block) + DFCC function/loop contracts (DoEscape); bounded unwinding for exactness")
